@@ -129,12 +129,20 @@ struct LFlag {
     ilig: bool,
     imark: bool,
     filter: Option<Vec<Glyph>>,
+    mattach: Option<Vec<Glyph>>, // MarkAttachmentType, class resolved to its glyphs
 }
-fn mkF(rtl: bool, ibase: bool, ilig: bool, imark: bool, filter: Option<Vec<Glyph>>) -> LFlag {
-    LFlag { rtl, ibase, ilig, imark, filter }
+fn mkF(rtl: bool, ibase: bool, ilig: bool, imark: bool, filter: Option<Vec<Glyph>>, mattach: Option<Vec<Glyph>>) -> LFlag {
+    LFlag { rtl, ibase, ilig, imark, filter, mattach }
 }
 fn flag0() -> LFlag {
-    mkF(false, false, false, false, None)
+    mkF(false, false, false, false, None, None)
+}
+fn oset_eqb(a: &Option<Vec<Glyph>>, b: &Option<Vec<Glyph>>) -> bool {
+    match (a, b) {
+        (None, None) => true,
+        (Some(x), Some(y)) => set_eqb(x, y),
+        _ => false,
+    }
 }
 
 fn flag_eqb(a: &LFlag, b: &LFlag) -> bool {
@@ -142,11 +150,8 @@ fn flag_eqb(a: &LFlag, b: &LFlag) -> bool {
         && a.ibase == b.ibase
         && a.ilig == b.ilig
         && a.imark == b.imark
-        && match (&a.filter, &b.filter) {
-            (None, None) => true,
-            (Some(x), Some(y)) => set_eqb(x, y),
-            _ => false,
-        }
+        && oset_eqb(&a.filter, &b.filter)
+        && oset_eqb(&a.mattach, &b.mattach)
 }
 
 /// GDEF glyph class definition: 1 base, 2 ligature, 3 mark, 4 component; absent = 0
@@ -166,6 +171,10 @@ fn skip(gd: &Gdef, fl: &LFlag, g: Glyph) -> bool {
         3 => {
             fl.imark
                 || match &fl.filter {
+                    Some(s) => !mem(g, s),
+                    None => false,
+                }
+                || match &fl.mattach {
                     Some(s) => !mem(g, s),
                     None => false,
                 }
@@ -956,6 +965,7 @@ struct SFlag {
     ilig: bool,
     imark: bool,
     filter: Option<Vec<CItem>>,
+    mattach: Option<Vec<CItem>>,
 }
 
 #[derive(Clone, Debug, PartialEq)]
@@ -1171,13 +1181,16 @@ fn resolve_gocs(rs: Rs, env: &Env, l: &[Goc]) -> Option<Vec<RGoc>> {
     if ok { Some(out) } else { None }
 }
 
+fn resolve_oclass(rs: Rs, env: &Env, o: &Option<Vec<CItem>>) -> Option<Option<Vec<Glyph>>> {
+    match o {
+        None => Some(None),
+        Some(items) => resolve_items(rs, env, items).map(Some),
+    }
+}
 fn resolve_flag(rs: Rs, env: &Env, f: &SFlag) -> Option<LFlag> {
-    match &f.filter {
-        None => Some(mkF(f.rtl, f.ibase, f.ilig, f.imark, None)),
-        Some(items) => match resolve_items(rs, env, items) {
-            Some(c) => Some(mkF(f.rtl, f.ibase, f.ilig, f.imark, Some(c))),
-            None => None,
-        },
+    match (resolve_oclass(rs, env, &f.filter), resolve_oclass(rs, env, &f.mattach)) {
+        (Some(fs), Some(ma)) => Some(mkF(f.rtl, f.ibase, f.ilig, f.imark, fs, ma)),
+        _ => None,
     }
 }
 
@@ -2658,6 +2671,9 @@ impl<'a> FeaP<'a> {
         if f.imark {
             parts.push("IgnoreMarks".into());
         }
+        if let Some(items) = &f.mattach {
+            parts.push(format!("MarkAttachmentType {}", self.class_or_ref(items)));
+        }
         if let Some(items) = &f.filter {
             parts.push(format!("UseMarkFilteringSet {}", self.class_or_ref(items)));
         }
@@ -2798,7 +2814,15 @@ fn cq_gocs(l: &[Goc]) -> String {
     coq_list(l, cq_goc)
 }
 fn cq_sflag(f: &SFlag) -> String {
-    format!("mkSF {} {} {} {} {}", coq_bool(f.rtl), coq_bool(f.ibase), coq_bool(f.ilig), coq_bool(f.imark), coq_opt(&f.filter, |i| cq_items(i)))
+    format!(
+        "mkSF {} {} {} {} {} {}",
+        coq_bool(f.rtl),
+        coq_bool(f.ibase),
+        coq_bool(f.ilig),
+        coq_bool(f.imark),
+        coq_opt(&f.filter, |i| cq_items(i)),
+        coq_opt(&f.mattach, |i| cq_items(i))
+    )
 }
 fn cq_rule(r: &Rule) -> String {
     match r {
@@ -2856,7 +2880,15 @@ fn cq_gm(names: &[&str]) -> String {
 }
 
 fn cq_lflag(f: &LFlag) -> String {
-    format!("(mkF {} {} {} {} {})", coq_bool(f.rtl), coq_bool(f.ibase), coq_bool(f.ilig), coq_bool(f.imark), coq_opt(&f.filter, |g| cq_glyphs(g)))
+    format!(
+        "(mkF {} {} {} {} {} {})",
+        coq_bool(f.rtl),
+        coq_bool(f.ibase),
+        coq_bool(f.ilig),
+        coq_bool(f.imark),
+        coq_opt(&f.filter, |g| cq_glyphs(g)),
+        coq_opt(&f.mattach, |g| cq_glyphs(g))
+    )
 }
 fn cq_vpair(p: &(Value, Value)) -> String {
     format!("({}, {})", cq_value(&p.0), cq_value(&p.1))
@@ -3409,13 +3441,19 @@ fn dec_subtable(b: &[u8], o: usize, ty: u32, is_gpos: bool, ng: u32) -> R<Subtab
     }
 }
 
-fn dec_lookup(b: &[u8], lo: usize, is_gpos: bool, marksets: &[Vec<Glyph>], ng: u32) -> R<Lookup> {
+fn dec_lookup(b: &[u8], lo: usize, is_gpos: bool, marksets: &[Vec<Glyph>], attach: &[(Glyph, u32)], ng: u32) -> R<Lookup> {
     let ty = r16(b, lo)?;
     let flag = r16(b, lo + 2)?;
     let n = r16(b, lo + 4)? as usize;
-    if flag >> 8 != 0 {
-        return Err(unsup("lookup flag with a mark attachment type"));
-    }
+    // MarkAttachmentType: the marks whose GDEF mark attachment class is the one in the high byte
+    let mattach: Option<Vec<Glyph>> = if flag >> 8 != 0 {
+        let c = (flag >> 8) as u32;
+        let mut v: Vec<Glyph> = attach.iter().filter(|(_, k)| *k == c).map(|(g, _)| *g).collect();
+        v.sort();
+        Some(v)
+    } else {
+        None
+    };
     if flag & 0xe0 != 0 {
         return Err(unsup(&format!("lookup flag with reserved bits {:#x}", flag)));
     }
@@ -3446,10 +3484,10 @@ fn dec_lookup(b: &[u8], lo: usize, is_gpos: bool, marksets: &[Vec<Glyph>], ng: u
     } else {
         None
     };
-    Ok(Lookup { flag: mkF(flag & 1 != 0, flag & 2 != 0, flag & 4 != 0, flag & 8 != 0, filter), subs })
+    Ok(Lookup { flag: mkF(flag & 1 != 0, flag & 2 != 0, flag & 4 != 0, flag & 8 != 0, filter, mattach), subs })
 }
 
-fn dec_layout(b: &[u8], is_gpos: bool, marksets: &[Vec<Glyph>], ng: u32) -> R<OtTable> {
+fn dec_layout(b: &[u8], is_gpos: bool, marksets: &[Vec<Glyph>], attach: &[(Glyph, u32)], ng: u32) -> R<OtTable> {
     let major = r16(b, 0)?;
     let minor = r16(b, 2)?;
     if major != 1 || minor > 1 {
@@ -3467,7 +3505,7 @@ fn dec_layout(b: &[u8], is_gpos: bool, marksets: &[Vec<Glyph>], ng: u32) -> R<Ot
         let n = r16(b, llo)? as usize;
         for i in 0..n {
             let lo = llo + r16(b, llo + 2 + 2 * i)? as usize;
-            t.lookups.push(dec_lookup(b, lo, is_gpos, marksets, ng)?);
+            t.lookups.push(dec_lookup(b, lo, is_gpos, marksets, attach, ng)?);
         }
     }
     // FeatureList
@@ -3513,8 +3551,8 @@ fn dec_layout(b: &[u8], is_gpos: bool, marksets: &[Vec<Glyph>], ng: u32) -> R<Ot
     Ok(t)
 }
 
-/// GDEF: glyph classes and mark glyph sets
-fn dec_gdef(b: &[u8]) -> R<(Gdef, Vec<Vec<Glyph>>)> {
+/// GDEF: glyph classes, mark glyph sets, mark attachment classes
+fn dec_gdef(b: &[u8]) -> R<(Gdef, Vec<Vec<Glyph>>, Vec<(Glyph, u32)>)> {
     let major = r16(b, 0)?;
     let minor = r16(b, 2)?;
     if major != 1 {
@@ -3523,6 +3561,8 @@ fn dec_gdef(b: &[u8]) -> R<(Gdef, Vec<Vec<Glyph>>)> {
     let gco = r16(b, 4)? as usize;
     let mut gd: Gdef = if gco != 0 { dec_classdef(b, gco)? } else { vec![] };
     gd.sort();
+    let mao = r16(b, 10)? as usize;
+    let attach: Vec<(Glyph, u32)> = if mao != 0 { dec_classdef(b, mao)? } else { vec![] };
     let mut sets = vec![];
     if minor >= 2 {
         let mo = r16(b, 12)? as usize;
@@ -3536,20 +3576,20 @@ fn dec_gdef(b: &[u8]) -> R<(Gdef, Vec<Vec<Glyph>>)> {
             }
         }
     }
-    Ok((gd, sets))
+    Ok((gd, sets, attach))
 }
 
 fn decode_font(bytes: &[u8], ng: u32) -> R<OtFont> {
-    let (gdef, sets) = match sfnt::table(bytes, b"GDEF") {
+    let (gdef, sets, attach) = match sfnt::table(bytes, b"GDEF") {
         Some(t) => dec_gdef(t)?,
-        None => (vec![], vec![]),
+        None => (vec![], vec![], vec![]),
     };
     let gsub = match sfnt::table(bytes, b"GSUB") {
-        Some(t) => dec_layout(t, false, &sets, ng)?,
+        Some(t) => dec_layout(t, false, &sets, &attach, ng)?,
         None => OtTable::default(),
     };
     let gpos = match sfnt::table(bytes, b"GPOS") {
-        Some(t) => dec_layout(t, true, &sets, ng)?,
+        Some(t) => dec_layout(t, true, &sets, &attach, ng)?,
         None => OtTable::default(),
     };
     Ok(OtFont { gsub, gpos, gdef })
@@ -3613,13 +3653,17 @@ fn show_table(names: &[&str], name: &str, t: &OtTable) -> String {
     let mut s = format!("{}:\n", name);
     for (i, lk) in t.lookups.iter().enumerate() {
         s.push_str(&format!(
-            "  lookup {} flag(rtl={} ibase={} ilig={} imark={} filter={})\n",
+            "  lookup {} flag(rtl={} ibase={} ilig={} imark={} filter={} mattach={})\n",
             i,
             lk.flag.rtl,
             lk.flag.ibase,
             lk.flag.ilig,
             lk.flag.imark,
             match &lk.flag.filter {
+                Some(f) => show_glyphs(names, f),
+                None => "-".into(),
+            },
+            match &lk.flag.mattach {
                 Some(f) => show_glyphs(names, f),
                 None => "-".into(),
             }
@@ -3724,6 +3768,7 @@ struct Gen<'r> {
     gm: Vec<Str>,
     has_alt: bool,
     inl_hist: Vec<(Glyph, Glyph)>, // inline single substitutions of the contextual lookup being generated
+    attach_parts: [Vec<Glyph>; 2], // the MarkAttachmentType classes of this program (disjoint: GDEF gives a mark one class)
 }
 
 impl<'r> Gen<'r> {
@@ -3735,6 +3780,7 @@ impl<'r> Gen<'r> {
         let mut use_flags = false;
         let mut use_ranges = rng.chance(1, 8);
         let mut use_scripts = rng.chance(1, 6);
+        let pick_part = rng.chance(1, 2);
         let w: [u64; 7];
         match theme {
             Theme::Chain => {
@@ -3842,6 +3888,7 @@ impl<'r> Gen<'r> {
             gm: GLYPHS.iter().map(|s| to_str(s)).collect(),
             has_alt: false,
             inl_hist: vec![],
+            attach_parts: if pick_part { [vec![G_ACUTE], vec![G_GRAVE, G_DOTB]] } else { [vec![G_ACUTE, G_GRAVE], vec![G_DOTB]] },
         }
     }
 
@@ -3975,7 +4022,7 @@ impl<'r> Gen<'r> {
     }
     fn sflag(&mut self) -> SFlag {
         let r = self.rng.below(100);
-        let mut f = SFlag { rtl: false, ibase: false, ilig: false, imark: false, filter: None };
+        let mut f = SFlag { rtl: false, ibase: false, ilig: false, imark: false, filter: None, mattach: None };
         if r < 40 {
             f.imark = true;
         } else if r < 52 {
@@ -4001,9 +4048,63 @@ impl<'r> Gen<'r> {
             f.ilig = true;
             f.imark = true;
             f.filter = Some(vec![IGlyph(G_ACUTE)]);
+        } else if r < 98 {
+            let k = self.rng.below(2) as usize;
+            f.mattach = Some(self.attach_parts[k].iter().map(|g| IGlyph(*g)).collect());
         }
         // else: all false = `lookupflag 0;`
         f
+    }
+    /// two lookupflag states that differ only in the class of UseMarkFilteringSet / MarkAttachmentType
+    /// (or not at all): rules of one type after each of them are two lookups (one, if the states are equal)
+    fn flag_pair(&mut self) -> (SFlag, SFlag) {
+        const SETS: [&[Glyph]; 6] = [&[G_ACUTE], &[G_DOTB], &[G_GRAVE], &[G_ACUTE, G_GRAVE], &[G_GRAVE, G_DOTB], &[G_ACUTE, G_DOTB]];
+        let items = |l: &[Glyph]| -> Vec<CItem> { l.iter().map(|g| IGlyph(*g)).collect() };
+        let mut base = SFlag { rtl: false, ibase: false, ilig: false, imark: false, filter: None, mattach: None };
+        if self.rng.chance(1, 6) {
+            base.rtl = true;
+        }
+        if self.rng.chance(1, 8) {
+            base.ilig = true;
+        }
+        let i = self.rng.below(6) as usize;
+        let mut j = self.rng.below(5) as usize;
+        if j >= i {
+            j += 1;
+        }
+        let (mut f1, mut f2) = (base.clone(), base.clone());
+        match self.rng.below(100) {
+            0..=54 => {
+                f1.filter = Some(items(SETS[i]));
+                f2.filter = Some(items(SETS[j]));
+            }
+            55..=69 => {
+                f1.mattach = Some(items(&self.attach_parts[0]));
+                f2.mattach = Some(items(&self.attach_parts[1]));
+            }
+            70..=79 => {
+                let k = self.rng.below(2) as usize;
+                f1.mattach = Some(items(&self.attach_parts[k]));
+                f2.mattach = f1.mattach.clone();
+                f1.filter = Some(items(SETS[i]));
+                f2.filter = Some(items(SETS[j]));
+            }
+            80..=89 => {
+                // the same state twice (the set written in another order): one lookup
+                f1.filter = Some(items(SETS[i]));
+                let mut rev: Vec<Glyph> = SETS[i].to_vec();
+                rev.reverse();
+                f2.filter = Some(items(&rev));
+            }
+            _ => {
+                // filter set against none / against IgnoreMarks
+                f1.filter = Some(items(SETS[i]));
+                if self.rng.chance(1, 2) {
+                    f2.imark = true;
+                }
+            }
+        }
+        if self.rng.chance(1, 2) { (f1, f2) } else { (f2, f1) }
     }
     fn def_class(&mut self) -> (u32, Vec<CItem>) {
         // a new name, or (1 in 4) a redefinition of an existing one
@@ -4616,13 +4717,20 @@ impl<'r> Gen<'r> {
         }
         let dom = self.dom_of(&rules);
         let mut stmts: Vec<LStmt> = vec![];
-        if self.use_flags && self.rng.chance(if in_named { 1 } else { 3 }, if in_named { 2 } else { 5 }) {
+        let split = if !in_named && self.use_flags && rules.len() >= 2 && self.rng.chance(1, 3) { Some(self.rng.range(1, rules.len() as i64 - 1) as usize) } else { None };
+        // a run split by a lookupflag statement: half of the time the two states differ only in a class
+        let pair = if split.is_some() && self.rng.chance(1, 2) { Some(self.flag_pair()) } else { None };
+        if let Some((f1, _)) = &pair {
+            stmts.push(LFlag(f1.clone()));
+        } else if self.use_flags && self.rng.chance(if in_named { 1 } else { 3 }, if in_named { 2 } else { 5 }) {
             stmts.push(LFlag(self.sflag()));
         }
-        let split = if !in_named && self.use_flags && rules.len() >= 2 && self.rng.chance(1, 5) { Some(self.rng.range(1, rules.len() as i64 - 1) as usize) } else { None };
         for (i, r) in rules.into_iter().enumerate() {
             if split == Some(i) {
-                stmts.push(LFlag(self.sflag()));
+                match &pair {
+                    Some((_, f2)) => stmts.push(LFlag(f2.clone())),
+                    None => stmts.push(LFlag(self.sflag())),
+                }
             }
             stmts.push(LRule(r));
         }
@@ -4714,6 +4822,19 @@ impl<'r> Gen<'r> {
                     }
                 }
                 if matches!(last_run, Some(k0) if merges(k0, kind)) {
+                    continue;
+                }
+                if self.use_flags && self.rng.chance(1, 4) {
+                    // two runs of one rule type, nothing but a lookupflag statement between them
+                    let (f1, f2) = self.flag_pair();
+                    let strip = |v: Vec<LStmt>| -> Vec<LStmt> { v.into_iter().filter(|s| !matches!(s, LFlag(_))).collect() };
+                    let (s1, _) = self.gen_run(kind, false);
+                    let (s2, _) = self.gen_run(kind, false);
+                    body.push(FS(LFlag(f1)));
+                    body.extend(strip(s1).into_iter().map(FS));
+                    body.push(FS(LFlag(f2)));
+                    body.extend(strip(s2).into_iter().map(FS));
+                    last_run = Some(kind);
                     continue;
                 }
                 let (stmts, _) = self.gen_run(kind, false);
@@ -4862,7 +4983,7 @@ fn make_invalid(rng: &mut Rng, p: &mut Prog) -> &'static str {
             "ligature-conflict"
         }
         7 => {
-            let fl = SFlag { rtl: false, ibase: false, ilig: false, imark: true, filter: None };
+            let fl = SFlag { rtl: false, ibase: false, ilig: false, imark: true, filter: None, mattach: None };
             p.push(TLookup(92, vec![LRule(RSingle(a(), b())), LFlag(fl), LRule(RSingle(b(), a()))]));
             p.push(feat(vec![FLookupRef(92)]));
             "lookupflag-between-rules"
@@ -4981,7 +5102,7 @@ fn corpus() -> Vec<(Prog, String)> {
                     vec![
                         r(RSingle(g(G_A), g(G_B))),
                         r(RLiga(vec![g(G_B), g(G_C)], G_D)),
-                        FS(LFlag(SFlag { rtl: false, ibase: false, ilig: false, imark: true, filter: None })),
+                        FS(LFlag(SFlag { rtl: false, ibase: false, ilig: false, imark: true, filter: None, mattach: None })),
                         r(RLiga(vec![g(G_B), g(G_B)], G_A)),
                         r(RPosPair(false, g(G_A), g(G_D), val(-30))),
                         r(RPosPair(false, cls(&[G_A, G_B]), cls(&[G_C, G_D]), val(5))),
@@ -4990,6 +5111,47 @@ fn corpus() -> Vec<(Prog, String)> {
             ],
             "corpus:flags-ligature-kerning".into(),
         ),
+        // two lookupflag states that differ only in the class: the rules after each are separate lookups
+        {
+            let gdef = || TGdef(vec![IGlyph(G_A), IGlyph(G_B), IGlyph(G_C), IGlyph(G_D)], vec![], vec![IGlyph(G_ACUTE), IGlyph(G_GRAVE), IGlyph(G_DOTB)], vec![]);
+            let fset = |m: &[Glyph]| FS(LFlag(SFlag { rtl: false, ibase: false, ilig: false, imark: false, filter: Some(m.iter().map(|x| IGlyph(*x)).collect()), mattach: None }));
+            (
+                vec![gdef(), TFeature(t, vec![fset(&[G_ACUTE]), r(RLiga(vec![g(G_A), g(G_B)], G_X)), fset(&[G_DOTB]), r(RLiga(vec![g(G_C), g(G_D)], G_Y))])],
+                "corpus:filter-sets-back-to-back-ligature".into(),
+            )
+        },
+        {
+            let gdef = || TGdef(vec![IGlyph(G_A), IGlyph(G_B), IGlyph(G_C), IGlyph(G_D)], vec![], vec![IGlyph(G_ACUTE), IGlyph(G_GRAVE), IGlyph(G_DOTB)], vec![]);
+            let fset = |m: &[Glyph]| FS(LFlag(SFlag { rtl: false, ibase: false, ilig: false, imark: false, filter: Some(m.iter().map(|x| IGlyph(*x)).collect()), mattach: None }));
+            (
+                vec![gdef(), TFeature(t, vec![fset(&[G_ACUTE, G_GRAVE]), r(RSingle(g(G_A), g(G_B))), fset(&[G_GRAVE]), r(RSingle(g(G_B), g(G_C))), r(RMulti(g(G_D), vec![g(G_A), g(G_A)]))])],
+                "corpus:filter-sets-back-to-back-single-multiple".into(),
+            )
+        },
+        {
+            let gdef = || TGdef(vec![IGlyph(G_A), IGlyph(G_B), IGlyph(G_C), IGlyph(G_D)], vec![], vec![IGlyph(G_ACUTE), IGlyph(G_GRAVE), IGlyph(G_DOTB)], vec![]);
+            let fset = |m: &[Glyph]| FS(LFlag(SFlag { rtl: false, ibase: false, ilig: false, imark: false, filter: Some(m.iter().map(|x| IGlyph(*x)).collect()), mattach: None }));
+            (
+                vec![gdef(), TFeature(t, vec![fset(&[G_ACUTE]), r(RPosPair(false, g(G_A), g(G_B), val(-10))), fset(&[G_DOTB]), r(RPosPair(false, g(G_A), g(G_C), val(-20))), r(RPosPair(false, cls(&[G_C, G_D]), cls(&[G_A]), val(-30)))])],
+                "corpus:filter-sets-back-to-back-pair".into(),
+            )
+        },
+        {
+            let gdef = || TGdef(vec![IGlyph(G_A), IGlyph(G_B), IGlyph(G_C), IGlyph(G_D)], vec![], vec![IGlyph(G_ACUTE), IGlyph(G_GRAVE), IGlyph(G_DOTB)], vec![]);
+            let fatt = |m: &[Glyph]| FS(LFlag(SFlag { rtl: false, ibase: false, ilig: false, imark: false, filter: None, mattach: Some(m.iter().map(|x| IGlyph(*x)).collect()) }));
+            (
+                vec![gdef(), TFeature(t, vec![fatt(&[G_ACUTE]), r(RLiga(vec![g(G_A), g(G_B)], G_X)), fatt(&[G_GRAVE, G_DOTB]), r(RLiga(vec![g(G_C), g(G_D)], G_Y)), r(RLiga(vec![g(G_A), g(G_B)], G_Z))])],
+                "corpus:attachment-types-back-to-back-ligature".into(),
+            )
+        },
+        {
+            let gdef = || TGdef(vec![IGlyph(G_A), IGlyph(G_B), IGlyph(G_C), IGlyph(G_D)], vec![], vec![IGlyph(G_ACUTE), IGlyph(G_GRAVE), IGlyph(G_DOTB)], vec![]);
+            let fset = |m: &[Glyph]| FS(LFlag(SFlag { rtl: false, ibase: false, ilig: false, imark: false, filter: Some(m.iter().map(|x| IGlyph(*x)).collect()), mattach: None }));
+            (
+                vec![gdef(), TFeature(t, vec![fset(&[G_ACUTE, G_DOTB]), r(RLiga(vec![g(G_A), g(G_B)], G_X)), fset(&[G_DOTB, G_ACUTE]), r(RLiga(vec![g(G_C), g(G_D)], G_Y))])],
+                "corpus:same-filter-set-twice-one-lookup".into(),
+            )
+        },
     ]
 }
 
@@ -5478,8 +5640,25 @@ fn process_program(id: usize, kind: &str, prog: &Prog, rng: &mut Rng, st: &mut S
                 alphabet = vec![G_A, G_B, G_C, G_D];
             }
             if prog_uses_flags(prog) {
-                let m = used.iter().map(|x| x.0).find(|g| is_mark(*g)).unwrap_or(G_ACUTE);
-                alphabet.push(m);
+                // every mark a lookupflag class or a rule mentions: a mark that is in one filtering set /
+                // attachment class and not in another must occur between the matched glyphs
+                let mut ms: Vec<Glyph> = used.iter().map(|x| x.0).filter(|g| is_mark(*g)).collect();
+                if let Some(e) = &espec {
+                    for sl in e.gsub.iter().chain(e.gpos.iter()) {
+                        for set in [&sl.flag.filter, &sl.flag.mattach].into_iter().flatten() {
+                            ms.extend(set.iter().copied().filter(|g| is_mark(*g)));
+                        }
+                    }
+                }
+                ms.sort();
+                ms.dedup();
+                if ms.is_empty() {
+                    ms.push(G_ACUTE);
+                }
+                if ms.len() >= 2 {
+                    alphabet.truncate(4);
+                }
+                alphabet.extend(ms);
             }
             let n = if alphabet.len() <= 4 { 4 } else { 3 };
             let mut extra: Vec<Vec<Glyph>> = vec![];
